@@ -31,10 +31,15 @@ CHECKS = {
   "C17": dict(level="model_checking", design="3.2, 4 (C17)",
       text="NonceFresh and SeqMonotone are invariants of MxChannel (sealing with in-band key change); on the implementation every AEAD seal of every run is observed at the primitive (key fingerprint, nonce, plaintext digest) through link-time wrappers and validated by MxChannel_Trace: a repeated (key, nonce) must be a byte-identical DTLS retransmission, sequence numbers strictly increase per key, each CBC record has a fresh PRNG draw and no explicit IV repeats on the wire. Scenarios: mixed sends/alerts/closure/tickets per suite, DTLS loss+timer schedules incl. loss of the final flight.",
       technique="TLA+ spec MxChannel checked by TLC + trace validation of every seal observed via link-time wrappers (MxChannel_Trace)"),
+  "C03": dict(level="model_checking", design="3.6, 4 (C03)",
+      text="MxX509 states the property (Valid: a signed path to an anchor with CA/keyUsage/pathLen/validity/critical-extension rules) and the transcribed procedure of matrixValidateCertsExt/psX509AuthenticateCert (Walk); TLC compares them exhaustively over 77k abstract scenarios (7 chain shapes x 5 anchor sets x two single-field deviations anywhere: signatures corrupted/wrong key/copied octets, names, CA flag, pathLen, keyUsage, validity, critical unknown extension, algorithm, AKI/SKI, EKU). The same scenarios are generated as real DER certificates with OpenSSL and run through the library; every answer is validated by TLC against Valid (soundness, and completeness on the supported subset).",
+      technique="TLA+ spec MxX509 (Valid vs transcribed Walk) checked by TLC + validation of the library's verdicts on generated chains (MxX509_Trace)"),
 }
+PKI_NOTE = ("Trusted base: TLC; OpenSSL (harness/certgen.c) as the independent certificate factory and the abstract-field -> DER mapping; 'success' = return code >= 0 and every presented certificate PS_CERT_AUTH_PASS. "
+            "CRLs/OCSP are not modelled. Quick tier: all scenarios with at most one deviation plus a sample of pairs; thorough: the whole universe.")
 CHAN_NOTE = ("Trusted base: TLC; link-time wrappers around psAesInitGCM/psAesEncryptGCM/psChacha20Poly1305Ietf*/psGetPrngLocked and the guarded seal hook are the observation points; "
              "the driver compares delivered bytes with the peer application's stream; authenticity oracle as for C01. Bounds: model MaxMsgs/MaxEdits/MaxPhases (see cfg); implementation: sampled scenarios per suite family x version.")
-NOTES = {"C01": SESSION_NOTE, "C06": SESSION_NOTE, "C15": SESSION_NOTE, "C02": CHAN_NOTE, "C17": CHAN_NOTE}
+NOTES = {"C01": SESSION_NOTE, "C06": SESSION_NOTE, "C15": SESSION_NOTE, "C02": CHAN_NOTE, "C17": CHAN_NOTE, "C03": PKI_NOTE}
 
 def main():
     hooks_commits = subprocess.run(["git", "-C", "/repo", "log", "--format=%h %s", "--grep=^verif:"], capture_output=True, text=True).stdout.strip().splitlines()
